@@ -1514,10 +1514,9 @@ def istypealiastype(t: tp.Any) -> compat.TypeIs[compat.TypeAliasType]:
 def unwrap(t: tp.Any) -> tp.Any:
     lt = None
     while lt is not t:
-        if should_unwrap(t):
-            lt = t
-            t = t.__args__[0]
-            continue
+        # Aliases and NewTypes first: `origin()` looks through them, so an alias (or a
+        #   NewType) of a qualified type (`type Limit = Final[int]`) is "to be unwrapped"
+        #   but has no `__args__`.
         if istypealiastype(t):
             tv = t.__value__
             if issubclass(type(tv), str):
@@ -1525,11 +1524,15 @@ def unwrap(t: tp.Any) -> tp.Any:
             lt = t
             t = tv
             continue
-
         if hasattr(t, "__supertype__"):
             lt = t
             t = t.__supertype__
             continue
+        if should_unwrap(t):
+            lt = t
+            t = t.__args__[0]
+            continue
+
         if type(t) is tp.TypeVar:
             lt = t
             t = normalize_typevar(t)
